@@ -1,4 +1,5 @@
-import VModel.Sentence
+import VModel.Spec
+import Driver.ModelParse
 /-! Line-protocol handler for sentence histories (`S op,op,…`).  See DESIGN.md §4.3. -/
 namespace V.Drv
 
@@ -65,7 +66,7 @@ def parseLabels (x : String) : Option (List B) :=
   if x = "-" then some [] else x.toList.mapM B.ofChar?
 
 /-- one op on the sentence; returns the new sentence and the response token; `none` = bad op -/
-def sentOp (s : Sentence) (op : String) : Option (Sentence × String) :=
+def sentOp (preds : List Predictor) (models : List WModel) (s : Sentence) (op : String) : Option (Sentence × String) :=
   let upd (r : Res (Sentence × Bool)) : Option (Sentence × String) :=
     match r with
     | .ok (s', true) => some (s', "ok")
@@ -89,6 +90,15 @@ def sentOp (s : Sentence) (op : String) : Option (Sentence × String) :=
   | ["Fraw", h] => (hexToStr? h).bind fun t => ctor (Sentence.fromRaw t)
   | ["Ftok", h] => (hexToStr? h).bind fun t => ctor (Sentence.fromTokenized t)
   | ["Fpart", h] => (hexToStr? h).bind fun t => ctor (Sentence.fromPartial t)
+  | ["pred", k] => do
+    let k ← k.toNat?
+    let p ← preds[k]?
+    ctor (p.predict k s)
+  | ["fill"] => ctor (s.fillTags (fun k => preds[k]?))
+  | ["spec", k] => do
+    let k ← k.toNat?
+    let m ← models[k]?
+    some (s, "Z" ++ joinWith "." ((specScores m s.text).map toString))
   | ["reset", k] => k.toNat?.map fun k => (s.resetTags k, "ok")
   | ["setbs", ls] =>
     (parseLabels ls).bind fun bs =>
@@ -103,13 +113,42 @@ def sentOp (s : Sentence) (op : String) : Option (Sentence × String) :=
     ctor (s.setTag i t)
   | _ => none
 
-def runSent (ops : String) : String :=
+def runHist (preds : List Predictor) (models : List WModel) (ops : String) : String :=
   let rec go (s : Sentence) : List String → List String
     | [] => []
     | op :: r =>
-      match sentOp s op with
+      match sentOp preds models s op with
       | some (s', out) => out :: go s' r
       | none => ["bad-op"]
   joinWith "," (go Sentence.default (ops.splitOn ","))
+
+def runSent (ops : String) : String := runHist [] [] ops
+
+/-- `pred := <model text> "^" <pt><st>[s]` -/
+def buildPred (cfg : Cfg) (spec : String) : Option (WModel × Res Predictor) :=
+  match spec.splitOn "^" with
+  | [mt, flags] => do
+    let m ← parseModel mt
+    let f := flags.toList
+    let pt := f[0]? == some '1'
+    let st := f[1]? == some '1'
+    -- a trailing `s` (serialize -> deserialize round trip) is the identity on the model's predictor (C14)
+    pure (m, (Predictor.new cfg m pt).map fun p => { p with storeTagScores := st })
+  | _ => none
+
+def runH (cfgS preds ops : String) : String :=
+  let cfg := parseCfg cfgS
+  match (preds.splitOn "!").mapM (buildPred cfg) with
+  | none => "bad-case"
+  | some built =>
+    let errs := (built.zipIdx).filterMap fun ((_, r), k) =>
+      match r with
+      | .ok _ => none
+      | .err e => some s!"new{k}:err:{e.toString}"
+      | .panic _ => some s!"new{k}:panic"
+      | .ub _ => some s!"new{k}:ub"
+    if !errs.isEmpty then joinWith "," errs else
+    let ps := built.filterMap fun (_, r) => match r with | .ok p => some p | _ => none
+    runHist ps (built.map Prod.fst) ops
 
 end V.Drv
